@@ -130,4 +130,15 @@ PROPS["C03"] = {
     "level_note": "Trusted: Lean kernel; the generator model; host stat given as data. Partial application after a failing Apply is not modelled.",
 }
 
+PROPS["C14"] = {
+    "level": "proof",
+    "streams": ["purity"],
+    "trusted_base": ["Go pointer aliasing between the raw Spec, the Device and the per-call edit list modelled as indices into a heap of device-node records",
+                     "lstat of host device nodes given to the model as data"],
+    "assumptions": ["container paths inside one request are distinct (so the OCI device list is in node order)"],
+    "technique": "Lean 4 proof on a heap model: injection with fill-a-copy leaves every cached record unchanged, hence any later injection equals a fresh cache's; in-place fill refuted by witness; before/after cache images and host-change histories on the real cache",
+    "level_text": "Kernel-checked theorems for every heap of cached device-node records, reference list and sequence of host states: the repaired injection writes no cached record (whether it succeeds or fails at any node), so after any number of injections the next one returns exactly what a fresh cache returns under the current host state; the in-place variant (pinned tree) is refuted by a two-step witness (stale major/minor, cached record changed). Tied to the code by histories on a real cache: spec files with device nodes leaving type/major/minor/hostPath unspecified, host nodes created with mknod, injection (InjectDevices / Device.ApplyEdits / Spec.ApplyEdits), host nodes replaced by other types and numbers (or removed), second injection, then the cached nodes read back through the query API and Cache.WriteSpec of the cached Spec.",
+    "level_note": "Trusted: Lean kernel; the heap abstraction (only device-node records are shared mutable state reachable from Apply).",
+}
+
 NOT_APPLICABLE = {}
